@@ -297,6 +297,18 @@ def putF (st : St) (m : Msg) : St × PutRes :=
     | none => (st, .acquireFailed)
     | some _ => put st m
 
+/-- `queue.Put` during which AcquirePage on the INDEX factory fails (one-shot fault): it is
+only called when the new sequence starts another index page; by then alloc has advanced the
+cursor and the copy is done; persistMetaOfMessage returns the error before any index or meta
+store — the Put fails, the sequence is not consumed, the allocated space is simply skipped. -/
+def putFI (st : St) (m : Msg) : St × PutRes :=
+  if m.len > dataPageSize then (st, .tooLarge)
+  else
+    let a := alloc st.mem st.q m.len
+    if nextSeq a.q / indexItemsPerPage ≠ a.q.indexPageIndex then
+      ({ mem := writeData a.mem a.pg a.off m m.len, q := a.q }, .acquireFailed)
+    else put st m
+
 /-- Close, then NewQueue on the same directory (Close only syncs and unmaps) -/
 def reopen (st : St) : St := openQ st.mem
 
@@ -315,11 +327,13 @@ inductive Op
   | crashPut (m : Msg) (k : Nat)
   | putFail (m : Msg)             -- a Put during which the data factory's AcquirePage fails
   | setAppended (s : Int)         -- SetAppendedSeq(s)
+  | putFailIdx (m : Msg)          -- a Put during which the index factory's AcquirePage fails
 
 def step (st : St) : Op → St
   | .put m => (put st m).1
   | .putFail m => (putF st m).1
   | .setAppended s => setAppended st s
+  | .putFailIdx m => (putFI st m).1
   | .get _ => st
   | .ack s => ack st s
   | .gc => gc st
